@@ -691,7 +691,9 @@ class Effects(object):
             for e in p.state.events:
                 if e.kind == 'store_attr' and isinstance(e.c, tuple):
                     tgt = self.absval(e.a, ctx)
-                    if not tgt[0]:
+                    # (inside a constructor the object under construction is private too: what its fields alias is what was stored)
+                    in_ctor = fi.name == '__init__' and fi.params and e.a == ('param', fi.params[0])
+                    if not tgt[0] or in_ctor:
                         fld = FIELD_ALIASES.get(e.b, e.b)
                         v = self.absval(e.c, ctx)
                         old = ctx['overrides'].get((e.a, fld))
